@@ -140,6 +140,37 @@ fn apply(base: &[u8], m: &Mutation) -> Vec<u8> {
     v
 }
 
+/// Start offsets of the 4-byte little-endian record length fields of an uncompressed BAM / BCF
+/// stream (from the harness's own framing).
+fn length_fields(t: &Target, base: &[u8]) -> Vec<usize> {
+    match t.driver {
+        "bam-raw" => framing::bam(base).map(|f| f.boundaries[..f.boundaries.len().saturating_sub(1)].to_vec()).unwrap_or_default(),
+        "bcf-raw" => framing::bcf(base).map(|f| f.boundaries[..f.boundaries.len().saturating_sub(1)].iter().flat_map(|b| [*b, *b + 4]).collect()).unwrap_or_default(),
+        _ => Vec::new(),
+    }
+}
+
+/// A mutant that turns a record length field into ≥ 16 MiB makes the reader allocate and zero that
+/// much before it meets the end of input — legitimate resource use that costs seconds per mutant.
+/// Such mutants are kept only as a small sample (about 1 in 24), the rest are dropped and counted.
+fn inflates_length_field(base: &[u8], fields: &[usize], m: &Mutation, x: u64) -> bool {
+    let (pos, width) = match m {
+        Mutation::Byte { pos, .. } => (*pos, 1usize),
+        Mutation::Word { pos, width, .. } => (*pos, *width as usize),
+        _ => return false,
+    };
+    for f in fields {
+        if pos + width > *f && pos < *f + 4 && *f + 4 <= base.len() {
+            let v = apply(base, m);
+            let val = u32::from_le_bytes([v[*f], v[*f + 1], v[*f + 2], v[*f + 3]]);
+            if val >= (1 << 24) && x % 24 != 0 {
+                return true;
+            }
+        }
+    }
+    false
+}
+
 /// The deterministic mutant family of a base byte string.
 fn family(base_len: usize, seed: u32) -> Vec<Mutation> {
     let mut out = Vec::new();
@@ -169,7 +200,7 @@ fn family(base_len: usize, seed: u32) -> Vec<Mutation> {
         // make a 32-bit length ≥ 2 GiB are drawn rarely (a reader may legitimately allocate that much
         // before it hits the end of input, which is slow but not one of the listed failures)
         if (x >> 8) % 2 == 0 {
-            let huge = (x >> 16) % 40 == 0;
+            let huge = (x >> 16) % 300 == 0;
             let vi = if huge { 8 + ((x >> 24) % 4) as usize } else { ((x >> 24) % 8) as usize };
             let width = if (x >> 32) % 3 == 0 { 2 } else { 4 };
             out.push(Mutation::Word { pos: *pos, width, val: WORD_VALUES[vi] });
@@ -437,7 +468,20 @@ fn check(t: &Target, c: &Case) -> Verdict {
     };
     let is_index = matches!(t.driver, "bai" | "csi" | "tabix" | "gzi" | "fai" | "crai");
     let data = if is_index { Some(data_file(&c.data_doc)) } else { None };
-    let muts = family(prep.base.len(), c.seed);
+    let fields = length_fields(t, &prep.base);
+    let mut dropped_inflating = 0u64;
+    let muts: Vec<Mutation> = family(prep.base.len(), c.seed)
+        .into_iter()
+        .enumerate()
+        .filter(|(i, m)| {
+            let drop = inflates_length_field(&prep.base, &fields, m, crate::engine::mix(c.seed as u64, *i as u64));
+            if drop {
+                dropped_inflating += 1;
+            }
+            !drop
+        })
+        .map(|(_, m)| m)
+        .collect();
     let opts = ReadOpts { sweep: true, vpos: false, max_events: 20_000, ..ReadOpts::default() };
     let mut fails = Fails::new();
     let mut past_validation = 0u64;
@@ -449,6 +493,9 @@ fn check(t: &Target, c: &Case) -> Verdict {
             }
         }
         n += 1;
+        if std::env::var_os("NV_TRACE_MUTANT").is_some() {
+            eprintln!("mutant #{i} {m:?}");
+        }
         let bytes = Arc::new(finalize(t, &prep, apply(&prep.base, m)));
         let what = format!("mutant #{i} {m:?} of a {}-byte input", prep.base.len());
         for d in std::iter::once(&drv).chain(extra.iter()) {
@@ -484,7 +531,8 @@ fn check(t: &Target, c: &Case) -> Verdict {
             .label_if(past_validation > 0, "mutants-past-first-validation")
             .label_if(past_validation * 2 > n, "majority-past-first-validation")
             .label_if(prep.base.len() <= ALL_POSITIONS_LIMIT, "every-position")
-            .label_if(prep.base.len() > ALL_POSITIONS_LIMIT, "sampled-positions"),
+            .label_if(prep.base.len() > ALL_POSITIONS_LIMIT, "sampled-positions")
+            .label_if(dropped_inflating > 0, "length-inflating-mutants-sampled"),
     )
 }
 
